@@ -330,6 +330,9 @@ def rule_wallet(ctx: Ctx, rep: Report) -> None:
     path = g.must_pass([i for c in rec for i in g.nodes_containing(c)]) if rec else [0]
     rep.ob(rule, "address:records", path is None, addr.where(), "every handed-out address passes through _record")
     st_ids = [i for st in stores for i in g.nodes_containing(st)]
+    # `if index + 1 > old: store` updates the counter on every return as well: the comparison with the old value is the update
+    st_ids += [n.id for n in g.nodes if n.kind == "test" and "self._next_index" in norm(n.ast) and any(
+        i in g.reachable(n.id) for st in stores for i in g.nodes_containing(st))]
     rep.ob(rule, "address:counter_on_every_return", bool(st_ids) and g.must_pass(st_ids) is None, addr.where(), "the counter update is on every normal return")
     recf = ctx.func(f"{W}.Wallet._record")
     keyed = [n for n in own_nodes(recf.node) if isinstance(n, ast.Assign) and any(isinstance(t, ast.Subscript) and norm(t.value) == "self._handed_out" and norm(t.slice).endswith(".address") for t in n.targets)]
